@@ -46,11 +46,16 @@ try:
 finally:
     shutil.rmtree(tmp, ignore_errors=True)
 shipped_parser, fresh_parser = _parser.Parser(), fresh.Lark_StandAlone()
+def norm(t):
+    if hasattr(t, 'children'):
+        return (str(t.data), tuple(norm(c) for c in t.children))
+    return (getattr(t, 'type', None), str(t))
 def run(p, text, start):
     try:
-        return ('tree', str(p.parse(text, start=start)))
+        return ('tree', repr(norm(p.parse(text, start=start))))
     except Exception as e:
-        return ('error', type(e).__name__)
+        lark_error = any(c.__name__ == 'LarkError' for c in type(e).__mro__)
+        return ('reject', '') if lark_error else ('crash', type(e).__name__)
 """
 
 
@@ -160,6 +165,18 @@ def main(tier: str, selftest_cases: int = 0) -> int:
     elif iso["result"] == "unsat":
         raise symnum.HarnessError("no isomorphism exists yet no reachable pair disagrees within the bound: "
                                   "unreachable states differ or the encoding is wrong")
+    # ---- 4. differential parsing through the two REAL parsers (covers the embedded runtime) --
+    # the shipped module embeds the lark runtime of the version that generated it, which cannot
+    # be compared textually with today's lark; its behaviour is compared instead
+    if rep.violations == 0:
+        nd, bad = differential(a, b, 3 if tier == "quick" else 4)
+        rep.obligations += nd
+        rep.discharged += nd - len(bad)
+        rep.nontrivial.update(("diff", i) for i in range(min(nd, 200)))
+        rep.coverage["differential_inputs"] = nd
+        if bad:
+            rep.violation("C16:differential", f"{len(bad)} inputs are treated differently by the shipped parser "
+                          f"and a parser built from the grammar, e.g. {bad[0]}", replay(bad[:5]))
     # ---- driver / witness validation against the real parsers -----------------------------
     # (only meaningful while the shipped tables are sane: with a corrupt table the real parser
     # crashes where the reference driver rejects, and the violation is already reported)
@@ -183,6 +200,51 @@ def main(tier: str, selftest_cases: int = 0) -> int:
     rep.assumptions += ["Lark's runtime classes embedded in _parser.py are trusted (only DATA/MEMO are compared)",
                         "the black/isort/sed post-processing of the Makefile rule does not change data"]
     return rep.finish()
+
+
+def differential(a: pt.Tables, b: pt.Tables, L: int) -> Tuple[int, List[Tuple[str, str]]]:
+    """Every class word of length <= L (one representative per character class of the terminal
+    regexes, plus token witnesses) through the real shipped parser and the real fresh parser."""
+    from measured import _parser
+    from props import c17
+
+    classes, _ = c17.char_classes(a)
+    reps = [r for _, _, r in classes] + ["m", "5", "²"]
+    reps = list(dict.fromkeys(reps))
+    shipped, fresh = _parser.Parser(), b.module.Lark_StandAlone()  # type: ignore
+
+    def norm(t: Any) -> Any:
+        # the rule name is a Token('RULE', ...) in the shipped (older) runtime and a str in today's
+        if hasattr(t, "children"):
+            return (str(t.data), tuple(norm(c) for c in t.children))
+        return (getattr(t, "type", None), str(t))
+
+    def run(p: Any, text: str, start: str) -> Tuple[str, str]:
+        try:
+            return ("tree", repr(norm(p.parse(text, start=start))))
+        except Exception as e:
+            # which LarkError subclass reports a rejection differs between lark versions
+            lark_error = any(c.__name__ == "LarkError" for c in type(e).__mro__)
+            return ("reject", "") if lark_error else ("crash", type(e).__name__)
+
+    n, bad = 0, []
+    for k in range(0, L + 1):
+        for w in itertools.product(reps, repeat=k):
+            text = "".join(w)
+            for start in a.start:
+                n += 1
+                if run(shipped, text, start) != run(fresh, text, start):
+                    bad.append((text, start))
+    # longer structured inputs from token witnesses
+    toks = list(WITNESS.values())
+    for k in range(4, 7):
+        for w in itertools.islice(itertools.product(toks, repeat=k), 0, 4000):
+            text = " ".join(w)
+            for start in a.start:
+                n += 1
+                if run(shipped, text, start) != run(fresh, text, start):
+                    bad.append((text, start))
+    return n, bad
 
 
 def validate_driver(a: pt.Tables, terms: List[str]) -> int:
